@@ -26,9 +26,21 @@ func ShowFields(ctx context.Context, proc *query.Processor, filename string) err
 			return query.NewFileNotExistError(filePath)
 		}
 
-		q := statements[0].(parser.SelectQuery)
-		filePath = q.SelectEntity.(parser.SelectEntity).FromClause.(parser.FromClause).Tables[0].(parser.Table).Object
-		filePath.ClearBaseExpr()
+		// The argument may parse to something other than what SHOW FIELDS accepts (a set operation, a join, DUAL, a subquery).
+		q, _ := statements[0].(parser.SelectQuery)
+		entity, _ := q.SelectEntity.(parser.SelectEntity)
+		from, _ := entity.FromClause.(parser.FromClause)
+		if len(from.Tables) < 1 {
+			return query.NewFileNotExistError(filePath)
+		}
+		table, _ := from.Tables[0].(parser.Table)
+		switch table.Object.(type) {
+		case parser.Identifier, parser.Url, parser.TableFunction, parser.Stdin, parser.FormatSpecifiedFunction:
+			filePath = table.Object
+			filePath.ClearBaseExpr()
+		default:
+			return query.NewFileNotExistError(filePath)
+		}
 	}
 
 	statements := []parser.Statement{
